@@ -7,6 +7,17 @@ cd "$(dirname "$0")"
 id="$1"; tier="${2:-quick}"
 cp -f /repo/go.sum ./go.sum 2>/dev/null
 mkdir -p bin
+if [ "$id" = "C20" ]; then
+  # C20 runs on a build of package zygo in which every range over a map goes through a chooser.
+  # The rewritten copies live under bin/mo and are passed with -overlay: /repo itself is not modified.
+  go build -o bin/maporder ./tools/maporder 2>bin/build.log || { echo "HARNESS-ERROR build failed:"; cat bin/build.log; exit 2; }
+  rm -rf bin/mo; mkdir -p bin/mo
+  bin/maporder /repo/zygo bin/mo > bin/mo/rewrite.log 2>&1 || { echo "HARNESS-ERROR map-order rewrite failed:"; cat bin/mo/rewrite.log; exit 2; }
+  if ! go build -tags "verif maporder" -overlay bin/mo/overlay.json -o bin/vcheck-c20 ./cmd/vcheck 2>bin/build.log; then
+    echo "HARNESS-ERROR build failed:"; cat bin/build.log; exit 2
+  fi
+  exec bin/vcheck-c20 "$id" "$tier"
+fi
 if ! go build -tags verif -o bin/vcheck ./cmd/vcheck 2>bin/build.log; then
   echo "HARNESS-ERROR build failed:"; cat bin/build.log; exit 2
 fi
